@@ -5,6 +5,10 @@
 //!             notrailer | trunc<n> | shift<k> | corrupt<i> | none
 //!   intact / damaged = the file bytes as run-length segments, `,`-joined:
 //!             h<hex> literal bytes | r<bb>.<count> a run of one byte
+//! Request (files with a cross-reference STREAM): `x <ops> <objs> <intact> <damaged>`, objs = the file's
+//!   objects `num.gen:offset` (top level) | `num.gen:c` (inside an object stream), `,`-joined;
+//!   ops: nosx | sx<N> | xsbreak (the /Type /XRef name destroyed) | xscorrupt<i> (entry i of the stream
+//!   data: offset + 7; Flate: a data byte flipped) | xslen (wrong /Length) | delxs (stream object removed) | trunc<n>
 //! Both files are opened with the REAL reader (`PdfReader::new`, recovery enabled).
 //! Answer: `<mode>|<entries>|<root>|<pages>|<intact dumps>|<damaged dumps>`
 //!   mode    = primary (the damaged cross-reference data still parsed: no reconstruction ran)
@@ -18,7 +22,7 @@ use oxiharness::*;
 mod reffile;
 use oxidize_pdf::parser::xref::XRefTable;
 use oxidize_pdf::parser::{ParseOptions, PdfDocument, PdfObject, PdfReader};
-use reffile::err_class;
+use reffile::{err_class, Body, Ent, Phys, Rev, XKind};
 use std::io::{BufReader, Cursor};
 
 fn encode_segments(b: &[u8]) -> String {
@@ -142,20 +146,37 @@ fn dumps(bytes: &[u8], objs: &[(u32, u16)]) -> (String, String) {
 
 fn run(req: &str) -> String {
     let p: Vec<&str> = req.split(' ').collect();
-    if p.len() != 4 || p[0] != "d" {
-        return "bad-request".into();
-    }
-    let (Some(intact), Some(damaged)) = (decode_segments(p[2]), decode_segments(p[3])) else {
+    let (intact_s, damaged_s, objs_s) = if p.len() == 4 && p[0] == "d" {
+        (p[2], p[3], None)
+    } else if p.len() == 5 && p[0] == "x" {
+        (p[3], p[4], Some(p[2]))
+    } else {
         return "bad-request".into();
     };
-    let objs = intact_objects(&intact);
+    let (Some(intact), Some(damaged)) = (decode_segments(intact_s), decode_segments(damaged_s)) else {
+        return "bad-request".into();
+    };
+    let objs: Vec<(u32, u16)> = match objs_s {
+        None => intact_objects(&intact),
+        Some(l) => l
+            .split(',')
+            .filter_map(|t| {
+                let ng = t.split(':').next()?;
+                let (n, g) = ng.split_once('.')?;
+                Some((n.parse().ok()?, g.parse().ok()?))
+            })
+            .collect(),
+    };
     // did the damaged cross-reference data still parse (no reconstruction)?
-    let strict = {
-        let mut br = BufReader::new(Cursor::new(damaged.clone()));
-        XRefTable::parse_with_options(&mut br, &ParseOptions::strict())
-    };
+    // same options as `PdfReader::new`, once with the fall-back to reconstruction switched off
     let mut opts = ParseOptions::default();
     opts.lenient_streams = true;
+    let mut no_recovery = opts.clone();
+    no_recovery.max_recovery_attempts = 0;
+    let strict = {
+        let mut br = BufReader::new(Cursor::new(damaged.clone()));
+        XRefTable::parse_with_options(&mut br, &no_recovery)
+    };
     let deflt = {
         let mut br = BufReader::new(Cursor::new(damaged.clone()));
         XRefTable::parse_with_options(&mut br, &opts)
@@ -474,10 +495,183 @@ fn apply(op: &str, l: &Layout, cur: &mut Vec<u8>) {
     }
 }
 
+/// a valid single-revision file whose cross-reference data is a cross-reference STREAM (optionally
+/// with some objects inside an object stream), written by the reference writer, and one or two damages
+fn gen_xs(rng: &mut Rng) -> Case {
+    let n_pages = 1 + rng.below(3) as u32;
+    let mut objs: Vec<Phys> = vec![];
+    let mut next = 3u32;
+    let mut kids = vec![];
+    for _ in 0..n_pages {
+        let (page, cont) = (next, next + 1);
+        next += 2;
+        kids.push(format!("{} 0 R", page));
+        objs.push(Phys {
+            num: page,
+            gen: 0,
+            body: Body::Raw(
+                format!("<< /Type /Page /Parent 2 0 R /MediaBox [0 0 612 792] /Contents {} 0 R >>", cont).into_bytes(),
+            ),
+        });
+        objs.push(Phys {
+            num: cont,
+            gen: 0,
+            body: Body::Stream {
+                dict: String::new(),
+                data: format!("BT /F1 12 Tf 72 {} Td (page {}) Tj ET", 700 - page, page).into_bytes(),
+            },
+        });
+    }
+    let info = next;
+    next += 1;
+    objs.push(Phys { num: info, gen: 0, body: Body::Raw(b"<< /Title (xs) /Producer (ref) >>".to_vec()) });
+    let cat_body = if rng.chance(1, 3) { "<</Type/Catalog/Pages 2 0 R>>" } else { "<< /Type /Catalog /Pages 2 0 R >>" };
+    objs.push(Phys { num: 1, gen: 0, body: Body::Raw(cat_body.as_bytes().to_vec()) });
+    objs.push(Phys {
+        num: 2,
+        gen: 0,
+        body: Body::Raw(format!("<< /Type /Pages /Kids [{}] /Count {} >>", kids.join(" "), n_pages).into_bytes()),
+    });
+    // extras: top level, or (1 in 3) inside an object stream
+    let n_extra = 1 + rng.below(3) as u32;
+    let in_objstm = rng.chance(1, 3);
+    let mut comp: Vec<(u32, u32, u32)> = vec![]; // (num, stm, idx)
+    if in_objstm {
+        let stm = next + n_extra;
+        let mut items = vec![];
+        for k in 0..n_extra {
+            items.push((next + k, format!("<< /Extra {} >>", k).into_bytes()));
+            comp.push((next + k, stm, k));
+        }
+        next += n_extra;
+        objs.push(Phys { num: stm, gen: 0, body: Body::ObjStmRaw { items, flate: rng.chance(1, 2) } });
+        next += 1;
+    } else {
+        for k in 0..n_extra {
+            objs.push(Phys { num: next, gen: 0, body: Body::Raw(format!("<< /Extra {} >>", k).into_bytes()) });
+            next += 1;
+        }
+    }
+    for i in (1..objs.len()).rev() {
+        let j = rng.below(i as u64 + 1) as usize;
+        objs.swap(i, j);
+    }
+    let xs_num = next;
+    let flate = rng.chance(1, 2);
+    let mut ents: Vec<(u32, Ent)> = vec![(0, Ent::Free { next: 0, gen: 65535 })];
+    for n in 1..=xs_num {
+        if let Some(c) = comp.iter().find(|c| c.0 == n) {
+            ents.push((n, Ent::Comp { stm: c.1, idx: c.2 }));
+        } else if n == xs_num {
+            ents.push((n, Ent::At { phys: objs.len(), gen: 0 }));
+        } else {
+            let phys = objs.iter().position(|p| p.num == n).unwrap();
+            ents.push((n, Ent::At { phys, gen: 0 }));
+        }
+    }
+    let rev = Rev {
+        objs: objs.clone(),
+        xk: XKind::Stream { num: xs_num, flate },
+        ents,
+        root: 1,
+        trailer_extra: format!("/Info {} 0 R", info),
+        size_override: None,
+    };
+    let built = reffile::build(&[rev]);
+    let xoff = built.xref_off[0] as usize;
+    let sxp = built.startxref_pos[0];
+    let data_start = xoff + built.bytes[xoff..].windows(7).position(|w| w == b"stream\n").unwrap() + 7;
+    let n_ops = if rng.chance(1, 4) { 2 } else { 1 };
+    let mut ops: Vec<String> = vec![];
+    for _ in 0..n_ops {
+        let op = match rng.below(9) {
+            0 | 1 => "nosx".to_string(),
+            2 => format!("sx{}", rng.below(built.bytes.len() as u64)),
+            3 => "xsbreak".to_string(),
+            4 | 5 => format!("xscorrupt{}", 1 + rng.below(xs_num as u64 - 1)),
+            6 => "xslen".to_string(),
+            7 => "delxs".to_string(),
+            _ => format!("trunc{}", 1 + rng.below((built.bytes.len() - xoff) as u64)),
+        };
+        if !ops.iter().any(|o: &String| o.trim_end_matches(|c: char| c.is_ascii_digit()) == op.trim_end_matches(|c: char| c.is_ascii_digit())) {
+            ops.push(op);
+        }
+    }
+    let mut dmg = built.bytes.clone();
+    for op in &ops {
+        if op == "nosx" {
+            if dmg.len() >= sxp + 9 {
+                dmg[sxp + 5] = b'X';
+            }
+        } else if let Some(n) = op.strip_prefix("sx") {
+            dmg.truncate(sxp.min(dmg.len()));
+            dmg.extend(format!("startxref\n{}\n%%EOF\n", n).as_bytes());
+        } else if op == "xsbreak" {
+            if let Some(p) = dmg[xoff.min(dmg.len())..].windows(11).position(|w| w == b"/Type /XRef") {
+                dmg[xoff + p + 10] = b'g';
+            }
+        } else if let Some(i) = op.strip_prefix("xscorrupt") {
+            let i: usize = i.parse().unwrap_or(1);
+            if flate {
+                if data_start + 3 < dmg.len() {
+                    dmg[data_start + 3] ^= 0x55;
+                }
+            } else {
+                let p = data_start + 7 * i + 4; // low byte of the offset field
+                if p < dmg.len() && p < sxp {
+                    dmg[p] = dmg[p].wrapping_add(7);
+                }
+            }
+        } else if op == "xslen" {
+            if let Some(p) = dmg[xoff.min(dmg.len())..].windows(8).position(|w| w == b"/Length ") {
+                let q = xoff + p + 8;
+                if q < dmg.len() {
+                    dmg[q] = if dmg[q] == b'9' { b'1' } else { dmg[q] + 1 };
+                }
+            }
+        } else if op == "delxs" {
+            if dmg.len() >= sxp {
+                let tail = dmg[sxp..].to_vec();
+                dmg.truncate(xoff);
+                dmg.extend(tail);
+            }
+        } else if let Some(n) = op.strip_prefix("trunc") {
+            let n: usize = n.parse().unwrap_or(0);
+            let keep = dmg.len().saturating_sub(n).max(xoff.min(dmg.len()));
+            dmg.truncate(keep);
+        }
+    }
+    let mut objl: Vec<String> = vec![];
+    // (the cross-reference stream object is the damaged data itself: not compared)
+    for (i, (n, g)) in built.phys_num.iter().enumerate() {
+        if *n != xs_num {
+            objl.push(format!("{}.{}:{}", n, g, built.phys_off[i]));
+        }
+    }
+    for c in &comp {
+        objl.push(format!("{}.0:c", c.0));
+    }
+    let tags = format!(
+        "xs{} {} ops{}{} nt",
+        if flate { "-flate" } else { "" },
+        ops.iter().map(|o| o.trim_end_matches(|c: char| c.is_ascii_digit()).to_string()).collect::<Vec<_>>().join("+"),
+        ops.len(),
+        if in_objstm { " objstm" } else { "" }
+    );
+    Case::new(
+        format!("x {} {} {} {}", ops.join("+"), objl.join(","), encode_segments(&built.bytes), encode_segments(&dmg)),
+        tags,
+    )
+}
+
 fn gen(rng: &mut Rng, tier: Tier) -> Vec<Case> {
     let mut cases = vec![];
     let n = if tier == Tier::Quick { 220 } else { 3000 };
     for i in 0..n {
+        if i % 5 == 3 {
+            cases.push(gen_xs(rng));
+            continue;
+        }
         let big = i % 4 == 0;
         let with_decoy = i % 5 == 4;
         let (l, notes) = build_intact(rng, big, with_decoy);
